@@ -407,12 +407,17 @@ def _merge_table(prog: Program, ctx: Ctx) -> None:
                 "x": (mem["x"].attrs["annotation"], text(mem["x"])), "K docstring": text(kk), "K.g": (kk.attrs["members"]["g"].attrs["returns"], text(kk.attrs["members"]["g"])),
                 "only_stub available at run time": mem["only_stub"].attrs["runtime"],
             }
+            # the loader merges the stubs of a top-level module twice (once when the stubs module is registered, once at the end of _load_package):
+            # a second merge of the same stubs changes nothing
+            it.call(ms, rt, st) if order == "runtime first" else it.call(ms, st, rt)
+            got["after a second merge of the same stubs"] = (sorted(out.attrs["members"]), out.attrs["members"]["only_stub"].attrs["runtime"], f.attrs["returns"], text(out))
         except Raised as r:
             got = {"raises": r.exc}
         want = {
             "returns the runtime module": True, "members": ["K", "f", "only_runtime", "only_stub", "x"], "module docstring": "stub module", "f docstring": "runtime f",
             "f returns": "R", "f parameters": [("a", "A"), ("b", "B")], "x": ("X", "stub x"), "K docstring": "stub K", "K.g": ("G", "runtime g"),
             "only_stub available at run time": False,
+            "after a second merge of the same stubs": (["K", "f", "only_runtime", "only_stub", "x"], False, "R", "stub module"),
         }
         for k_, w_ in want.items():
             ctx.ob("R6", f"merge|{order}|{k_}", got.get(k_) == w_, f"merge_stubs ({order}): {k_} = {got.get(k_, got)}; expected {w_}", where(ms))
